@@ -236,13 +236,25 @@ func isGlueSym(t Tok) bool {
 
 // CanAbut reports whether two adjacent tokens may be written with nothing between
 // them without changing the token sequence: conservatively, only when one of them
-// is a single-character symbol other than '-', and the left one does not end in a
-// backslash.
+// is a single-character symbol other than '-' or a delimited token (quoted phrase,
+// regexp), and the left one does not end in a backslash.
 func CanAbut(l, r Tok) bool {
 	if strings.HasSuffix(l.Text, `\`) {
 		return false
 	}
-	return isGlueSym(l) || isGlueSym(r)
+	if isGlueSym(l) || isGlueSym(r) {
+		return true
+	}
+	// delimited tokens ("phrase", 'phrase', /regexp/) are self-delimiting at both ends
+	return delimited(l) || delimited(r)
+}
+
+func delimited(t Tok) bool {
+	if t.Class != TTerm || len(t.Text) < 2 {
+		return false
+	}
+	f, l := t.Text[0], t.Text[len(t.Text)-1]
+	return f == l && (f == '"' || f == '\'' || f == '/')
 }
 
 // Join writes tokens separated by the whitespace fillers of o (cycled over the
